@@ -181,8 +181,8 @@ PROPS = {
              rewrite=[{"files": ["proxy/tcp/tcp_proxy.go", "proxy/tcp/sni_proxy.go", "proxy/tcp/tcp_dynamic_proxy.go"], "opts": ["-go", "-chan", "-sel", "net.DialTimeout=vhook.DialTimeout"]}]),
         unit("c09-ws", "proxy", PROXY_COMMON + ["proxy/c09_ws_test.go"], "^TestVerifC09", engines=SCHED + ["vhook", "vnet"], sched_env={"GOMAXPROCS": "1"}, shards={"quick": 4, "thorough": 16},
              rewrite=[{"files": ["proxy/ws_handler.go"], "opts": ["-imports", "-go", "-chan"]}]),
-        unit("c09-sockets", "proxy/tcp", TCP_COMMON + ["tcp/c10_test.go", "tcp/c09_test.go", "tcp/c09_sock_test.go"], "^TestVerifC09Sockets", engines=SCHED + ["vhook", "vnet"]),
-    ], layers={"quick": ["c09-tunnels", "c09-websocket", "c09-sockets"], "thorough": ["c09-tunnels", "c09-websocket", "c09-sockets"]}),
+        unit("c09-sockets", "proxy/tcp", TCP_COMMON + ["tcp/c10_test.go", "tcp/c09_test.go", "tcp/c09_sock_test.go", "tcp/c09_proxyline_test.go"], "^TestVerifC09(Sockets|ProxyLine)", engines=SCHED + ["vhook", "vnet"]),
+    ], layers={"quick": ["c09-tunnels", "c09-websocket", "c09-sockets", "c09-proxyline"], "thorough": ["c09-tunnels", "c09-websocket", "c09-sockets", "c09-proxyline"]}),
     "C18": dict(level="model_checking", engine="vsched",
         technique="stateless model checking of tcp.Server Serve/Shutdown under a controlled scheduler with virtual time + exhaustive scenario matrix on real http/https/tcp/grpc/sni servers with causal barriers",
         level_text="(core) every interleaving up to the reported preemption bound of the real tcp.Server accept loop, 1-2 connection handlers (finishing early, late or never), a late connect and Shutdown with a virtual 10 s wait: no accept after the listeners were closed, early handlers are not cut off, Shutdown returns by the wait and leaves no connection open, no deadlock. (servers) the matrix listener kind x in-flight work x shutdown moment on real servers started through fabio's ListenAndServe* and stopped with proxy.Shutdown.",
@@ -205,7 +205,7 @@ PROPS = {
 }
 
 LAYER_UNIT = {"c06-sched": "c06", "c03-select": "c03", "c03-lookuphost": "c03", "c04-add": "c04", "c04-weightcmd": "c04", "c05-commands": "c05",
-              "c07-request": "c07", "c07-response": "c07", "c07-wire": "c07", "c07-history": "c07", "c08-headers": "c08", "c08-websocket": "c08", "c09-tunnels": "c09", "c09-websocket": "c09-ws",
+              "c07-request": "c07", "c07-response": "c07", "c07-wire": "c07", "c07-history": "c07", "c08-headers": "c08", "c08-websocket": "c08", "c09-tunnels": "c09", "c09-proxyline": "c09-sockets", "c09-websocket": "c09-ws",
               "c10-sni": "c10", "c12-rules": "c12-rules", "c13-inputs": "c13", "c13-sched": "c13", "c14-registrations": "c14", "c15-sources": "c15-config",
               "c15-robust": "c15-config", "c16-calls": "c16", "c16-history": "c16", "c19-config": "c19", "c19-behaviour": "c19", "c19-history": "c19", "c20-fields": "c20-logger", "c20-e2e": "c20-formatters",
               "c20-formats": "c20-logger", "c20-atoi": "c20-logger", "c01-health": "c01-health"}
